@@ -1,0 +1,16 @@
+//go:build verif
+
+package cpu65c816
+
+// Entry points for the verification lemmas (see /verif): the interrupt entry sequences that Step runs
+// when an interrupt is pending are unexported; the relational lemmas of the two interpreters call them
+// through these wrappers. Nothing else uses them.
+
+// VerifNMI runs the NMI entry sequence
+func (cpu *CPU) VerifNMI() { cpu.nmi() }
+
+// VerifIRQ runs the IRQ entry sequence
+func (cpu *CPU) VerifIRQ() { cpu.irq() }
+
+// VerifTriggerNMI requests an NMI
+func (cpu *CPU) VerifTriggerNMI() { cpu.triggerNMI() }
